@@ -224,8 +224,9 @@ def fromstr_shape(facts, key):
         lookups = [bb for bb, tt in b.calls() if callee_name(tt["callee"]) == "phf::Map::<K, V>::get"]
         if len(rets) == 2 and len(lookups) == 1 and sorted(c[0] for _, c in rets) == ["err", "ok"]:
             (be, ce), (bo, co) = sorted(rets, key=lambda r: r[1][0])
-            ae = [models.canon_atom(a) for _, a in atoms_at(b, be)]
-            ao = [models.canon_atom(a) for _, a in atoms_at(b, bo)]
+            # (the passing side of an `assert!` / `debug_assert!` on the way is not a condition of the result)
+            ae = [models.canon_atom(a) for gb_, a in atoms_at(b, be) if not models.is_assertion_guard(b, gb_)]
+            ao = [models.canon_atom(a) for gb_, a in atoms_at(b, bo) if not models.is_assertion_guard(b, gb_)]
             pay = co[1]
             look = pay[1] if pay[0] == "some" else None
             if look is not None and look[0] == "call" and look[1] == "std::option::Option::<&T>::copied":
